@@ -151,8 +151,8 @@ theorem reminder_only_in_hard_unsuppressed_problem (c : Cfg) (s : St) (op : Op) 
       (applyOp c s op).2.env.acked = false ∧ (applyOp c s op).2.env.flapping = false ∧
       (applyOp c s op).2.env.ckProblemPending = false ∧ (applyOp c s op).2.heldAfter = false := by
   intro ev hm hr
-  have h := (reminder_op c {} s op (fun t1 l hl => by simp at hl)).1
-  unfold reminderObs at h
+  have h := (reminder_op false c {} s op (fun t1 l hl => by simp at hl) (fun _ _ h => by cases h)).1
+  unfold reminderObsOf at h
   obtain ⟨g', hg⟩ := evFold_none_mem _ _ _ h ev hm
   simp only [reminderEv, hr, Bool.not_true, Bool.false_eq_true, if_false] at hg
   cases hk : ((applyOp c s op).2.kind == OpKind.tick && ev.ty == NType.problem)
@@ -179,47 +179,98 @@ theorem reminder_only_in_hard_unsuppressed_problem (c : Cfg) (s : St) (op : Op) 
           simp [hq, this] at hh
       exact ⟨hk.1, hk.2, a1, a2, a3, a4, a5, a6, a7, a8⟩
 
-/-- **reminder_spacing** (third sentence, second part).  In every trace of the model, within a stretch
-    without a hard state change and with a clock that does not run backwards: a reminder comes at least
-    `interval` seconds after the last unforced Problem (reminder or not) of the notification object, and
-    with `interval ≤ 0` no reminder follows such a Problem until another notification type (except Custom)
-    or a Recovery has been processed.  (Also: reminders only from the timer and only in a hard,
-    unsuppressed, non-flapping problem state — the clauses of the previous theorem, on traces.)
-    The side condition is necessary: `times.begin` re-arms `next_notification` relative to a new hard
-    state change (notification.cpp:303), DESIGN.md §3 Q-C03. -/
-theorem reminder_spacing (c : Cfg) (ops : List Op) :
+/- **reminder_spacing** (third sentence, second part) — the full statement, which the unchanged code (hence the model)
+   does NOT satisfy for `interval ≤ 0` (F-C03c, `reminder_interval0_counterexample` below):
+
+     theorem reminder_spacing (c : Cfg) (ops : List Op) : reminderTrace c (traceOf c init ops) = none
+
+   In every trace, within a stretch without a hard state change and with a clock that does not run backwards: a reminder
+   comes at least `interval` seconds after the last unforced Problem (reminder or not) of the notification object, and
+   with `interval ≤ 0` no reminder follows such a Problem until a Recovery has been processed.  (Also: reminders only
+   from the timer and only in a hard, unsuppressed, non-flapping problem state.)  The stretch condition is necessary:
+   `times.begin` re-arms `next_notification` relative to a new hard state change (notification.cpp:303), Q-C03. -/
+
+/-- No event of the trace re-arms the reminder of an `interval ≤ 0` object: no notification of a type other than
+    Problem, Custom and Recovery passes the notification-level filters (always true when `interval > 0`). -/
+def NoRearmTrace (c : Cfg) (tr : List Obs) : Prop := ∀ o ∈ tr, ∀ ev ∈ o.events, rearms c ev = false
+
+/-- **reminder_spacing_partial**: the full statement for every trace without a re-arming event — in particular, without
+    any hypothesis, for every notification object with `interval > 0` (next theorem). -/
+theorem reminder_spacing_partial (c : Cfg) (ops : List Op) (h : NoRearmTrace c (traceOf c init ops)) :
     reminderTrace c (traceOf c init ops) = none := by
   unfold reminderTrace
-  exact runTrace_ok (reminderObs c) (RemInv c) (fun _ => True) c
-    (fun g s op hi _ => reminder_op c g s op hi) ops {} init
+  exact runTrace_ok (reminderObs c) (RemInv c) (allEv (NoRearm true c)) c
+    (fun g s op hi hp => reminder_op true c g s op hi hp) ops {} init
+    (fun t1 l hl => by simp at hl) (fun o ho ev hev _ => h o ho ev hev)
+
+/-- **reminder_spacing_positive_interval**: for `interval > 0` the third sentence holds of every trace. -/
+theorem reminder_spacing_positive_interval (c : Cfg) (ops : List Op) (hpos : 0 < c.interval) :
+    reminderTrace c (traceOf c init ops) = none := by
+  apply reminder_spacing_partial
+  intro o _ ev _
+  have : ¬ c.interval ≤ 0 := by omega
+  simp [rearms, this]
+
+/-- **reminder_spacing_rearmed**: for every trace, the third sentence in the weaker reading the code implements — with
+    `interval ≤ 0` no reminder follows a Problem until a Recovery *or any other notification type but Custom* has been
+    processed; all other clauses of the checker (timer only, hard unsuppressed non-flapping problem, spacing) as stated. -/
+theorem reminder_spacing_rearmed (c : Cfg) (ops : List Op) :
+    reminderTraceLoose c (traceOf c init ops) = none := by
+  unfold reminderTraceLoose
+  exact runTrace_ok (reminderObsLoose c) (RemInv c) (fun _ => True) c
+    (fun g s op hi _ => reminder_op false c g s op hi (fun _ _ h => by cases h)) ops {} init
     (fun t1 l hl => by simp at hl) (fun _ _ => trivial)
 
-/- **model_trace_meets_spec** (the whole property) — full statement, false of the unchanged code because of F-C03b:
+/-- F-C03c, the witness: `interval = 0`; Problem sent; a FlappingEnd notification passes (re-arms:
+    no_more_notifications := false, notification.cpp:396-397); the next timer run sends a reminder for the same
+    incident. -/
+def cx0Cfg : Cfg := { cxAll with interval := 0 }
+def cx0Ops : List Op := [.send .problem (cxEnv 100 2 true), .send .flapEnd { cxEnv 160 2 true with lhsc := 100 },
+                         .tick { cxEnv 220 2 true with lhsc := 100 }]
+
+theorem reminder_interval0_counterexample :
+    reminderTrace cx0Cfg (traceOf cx0Cfg init cx0Ops) = some .reminderInterval0 ∧
+    (traceOf cx0Cfg init cx0Ops).map (fun o => o.events) =
+      [[⟨.problem, false, true, false, [0, 1]⟩], [⟨.flapEnd, false, true, false, [0, 1]⟩], [⟨.problem, true, true, false, [0, 1]⟩]] := by
+  decide
+
+/-- The hypothesis of `reminder_spacing_partial` is satisfiable on a non-trivial `interval = 0` trace: Problem, Custom,
+    timer (nothing), Recovery, next incident's Problem. -/
+example : NoRearmTrace cx0Cfg (traceOf cx0Cfg init
+    [.send .problem (cxEnv 100 2 true), .send .custom { cxEnv 160 2 true with lhsc := 100 }, .tick { cxEnv 220 2 true with lhsc := 100 },
+     .send .recovery (cxEnv 300 0 true), .send .problem (cxEnv 400 2 true)]) := by
+  unfold NoRearmTrace; decide
+
+/- **model_trace_meets_spec** (the whole property) — full statement, false of the unchanged code because of F-C03b and F-C03c:
 
      theorem model_trace_meets_spec (c : Cfg) (ops : List Op) : specTrace c (traceOf c init ops) = none -/
 
 /-- **model_trace_meets_spec_partial**.  For every configuration of the notification object and every finite sequence of
     notification requests and timer runs under arbitrary environments in which no Recovery request is dropped by the
-    enable flags, the model's trace satisfies the whole executable specification (all clauses of all checkers). -/
+    enable flags and (for `interval ≤ 0`) no other notification type re-arms the reminder, the model's trace satisfies
+    the whole executable specification (all clauses of all checkers). -/
 theorem model_trace_meets_spec_partial (c : Cfg) (ops : List Op)
-    (h : ∀ o ∈ traceOf c init ops, recoveryDropped o = false) :
+    (h : ∀ o ∈ traceOf c init ops, recoveryDropped o = false) (h0 : NoRearmTrace c (traceOf c init ops)) :
     specTrace c (traceOf c init ops) = none := by
   unfold specTrace
-  rw [delivery_only_if, recovery_ack_recipients_partial c ops h, no_duplicate_problem, reminder_spacing, heldTrace_ok]
+  rw [delivery_only_if, recovery_ack_recipients_partial c ops h, no_duplicate_problem, reminder_spacing_partial c ops h0,
+    heldTrace_ok]
 
-/-- … and `recoveryAckRecipients` is the only clause that can fail without the hypothesis: every other checker accepts
-    every trace of the model. -/
+/-- … and `recoveryAckRecipients` and `reminderInterval0` are the only clauses that can fail without the hypotheses:
+    every other checker — and the reminder checker in the code's weaker reading of interval 0 — accepts every trace of
+    the model. -/
 theorem model_trace_other_clauses (c : Cfg) (ops : List Op) :
     deliveryTrace c (traceOf c init ops) = none ∧ noDupTrace (traceOf c init ops) = none ∧
-    reminderTrace c (traceOf c init ops) = none ∧ heldTrace (traceOf c init ops) = none :=
-  ⟨delivery_only_if c init ops, no_duplicate_problem c ops, reminder_spacing c ops, heldTrace_ok c ops init⟩
+    reminderTraceLoose c (traceOf c init ops) = none ∧ heldTrace (traceOf c init ops) = none :=
+  ⟨delivery_only_if c init ops, no_duplicate_problem c ops, reminder_spacing_rearmed c ops, heldTrace_ok c ops init⟩
 
 theorem model_trace_meets_spec_counterexample :
     specTrace cxAll (traceOf cxAll init cxDropOps) = some .recoveryAckRecipients := by
   decide
 
-/-- The hypothesis is satisfiable on a non-trivial trace (the former witness of F-C03a: four requests, seven deliveries). -/
-example : ∀ o ∈ traceOf cxCfg init cxOps, recoveryDropped o = false := by decide
+/-- The hypotheses are satisfiable on a non-trivial trace (the former witness of F-C03a: four requests, seven deliveries). -/
+example : (∀ o ∈ traceOf cxCfg init cxOps, recoveryDropped o = false) ∧ NoRearmTrace cxCfg (traceOf cxCfg init cxOps) := by
+  unfold NoRearmTrace; decide
 
 /-! ## Non-vacuity -/
 
